@@ -15,6 +15,9 @@
 (*   fteq    fit_transform(train) = fit(train).transform(train)                *)
 (*   shift   the run with every index shifted by a constant gives the same     *)
 (*           values on the shifted index                                        *)
+(*   noupd   update calls that do not update parameters (later, earlier or      *)
+(*           gapped stretches alike) leave the mapping as fitted: the output    *)
+(*           equals that of the transformer fitted on the training series only  *)
 (***************************************************************************)
 EXTENDS Integers, Sequences, FiniteSets, TLC
 
@@ -28,12 +31,13 @@ ExpectedST(c) ==
      phases |-> (IF IsDeseason(c) THEN [i \in 1..c.len |-> Phase(c, c.lo + i - 1)] ELSE << >>),
      inv_phases |-> (IF IsDeseason(c) THEN [i \in 1..c.len |-> Phase(c, c.lo + i - 1)] ELSE << >>),
      rt |-> (IF c.inverse THEN [i \in 1..c.len |-> TRUE] ELSE << >>),
-     rt_index |-> TRUE, fteq |-> TRUE, shift |-> TRUE]
+     rt_index |-> TRUE, fteq |-> TRUE, shift |-> TRUE, noupd |-> TRUE]
 STClause(c, o) ==
     LET e == ExpectedST(c) IN
     IF o.index # e.index THEN "SameIndex"
     ELSE IF o.phases # e.phases \/ o.inv_phases # e.inv_phases THEN "PhaseDependsOnlyOnTimeModPeriod"
     ELSE IF o.rt # e.rt \/ ~o.rt_index THEN "InverseOfTransformIsIdentity"
     ELSE IF ~o.fteq THEN "FitTransformEqualsFitThenTransform"
+    ELSE IF ~o.noupd THEN "UpdateWithoutRefitKeepsTheMapping"
     ELSE "ShiftEquivariance"
 =============================================================================
